@@ -3,6 +3,7 @@ import SC.Properties.C06
 import SC.Proofs.SrcCut
 import SC.Proofs.SrcCutB
 import SC.Proofs.SrcCountRune
+import SC.Proofs.SrcCountRuneB
 /-!
 # C12 — source-level theorems (kept apart from `SC.Properties.C12`: see `Src/C04.lean`)
 -/
@@ -55,5 +56,14 @@ theorem source_countRune (s : Bytes) (root off : Nat) (r : Nat) (hv : validRune 
     Ret Gen.Src.str false str_countRune [.str s root off, .int r] h [.int (((dec s).countP (fun p => p.1 == r) : Nat) : Int)] h := by
   have := Str.countRune s root off r hv hr h hls hCore
   rw [A.countRune_spec (GoSsa.cfg false) r hv hr (s.length + 1) s 0 (by omega)] at this
+  simpa using this
+/-- the same for `bytcase.countRune` (`Gen.Src.byt`; same go/ssa shape, proof by renaming) -/
+theorem source_countRune_bytcase (s : Bytes) (root off : Nat) (r : Nat) (hv : validRune r) (hr : r ≠ 0xFFFD) (h : Heap) (hls : s.length < 4611686018427387904)
+    (hCore : ∀ (s' : Bytes) (off' : Nat), ∃ N, ∀ fuel, N ≤ fuel →
+      run Gen.Src.byt true fuel (Frame.entry byt_indexRuneCase [.str s' root off', .int r]) h =
+        .ok [.int (A.indexRuneCase (GoSsa.cfg true) s' r)] h) :
+    Ret Gen.Src.byt true byt_countRune [.str s root off, .int r] h [.int (((dec s).countP (fun p => p.1 == r) : Nat) : Int)] h := by
+  have := Byt.countRune s root off r hv hr h hls hCore
+  rw [A.countRune_spec (GoSsa.cfg true) r hv hr (s.length + 1) s 0 (by omega)] at this
   simpa using this
 end C12
